@@ -169,6 +169,16 @@ theorem lawful_versionBody : Lawful versionBody :=
     (lawful_pair lawful_netAddr (lawful_pair lawful_netAddr (lawful_pair (lawful_uintLE 8)
       (lawful_pair lawful_varBytes (lawful_intLE 4)))))))) _ _ (fun _ _ => rfl)
 
+theorem netAddr_valid (a : NetAddr) :
+    netAddr.valid a ↔ a.services < 2 ^ 64 ∧ a.ip.length = 16 ∧ a.port < 2 ^ 16 := by
+  simp only [netAddr, Codec.map, pair, uintLE_valid, uintBE_valid, bytesN]
+  constructor
+  · rintro ⟨⟨a1, b, c⟩, _⟩; exact ⟨by omega, b, by omega⟩
+  · rintro ⟨a1, b, c⟩; exact ⟨⟨by omega, b, by omega⟩, trivial⟩
+
+theorem inventory_valid (i : Nat × Bytes) : inventory.valid i ↔ i.1 < 2 ^ 32 ∧ i.2.length = 32 := by
+  simp only [inventory, pair, uintLE_valid, revBytesN_valid]
+
 theorem listUpTo_valid (m : Nat) (c : Codec α) (l : List α) :
     (listUpTo m c).valid l ↔ (l.length ≤ Gen.VarInt.MAX_SIZE ∧ l.length ≤ m) ∧ ∀ x ∈ l, c.valid x := by
   have : Gen.VarInt.MAX_SIZE < 2 ^ 64 := by decide
